@@ -1,15 +1,25 @@
 """C47 — DataFrame file round trips preserve data (CSV half; the parquet half cannot run in this sandbox).
 
-Model:    lean/DaskModel/Model/Csv.lean on top of Model/TextBlocks.lean (read_bytes blocks, header handling of
-          text_blocks_to_pandas / pandas_read_text)
-Theorems: lean/DaskModel/Props/C47.lean
-Tie:      API level: (a) read_csv(file, blocksize) == pandas.read_csv(file) for every blocksize down to 1 byte on random
-          frames (ints, floats, strings with commas / quotes, datetimes, NA; separate stream with line terminators inside
-          quoted fields); partition row counts vs the Lean block model; (b) to_csv -> read_csv round trips over
-          partitionings, name_function, single_file, write index, header options; (c) several files (globs).
+Model:    lean/DaskModel/Model/Csv.lean (block model) and Model/CsvOpts.lean (header / names / skiprows handling of
+          read_pandas / _header_row / _read_csv / pandas_read_text, the sample, several files, pandas at line level,
+          to_csv's per-partition header decision) on top of Model/TextBlocks.lean (read_bytes blocks, group bag)
+Theorems: lean/DaskModel/Props/C47.lean, lean/DaskModel/Props/C47Opts.lean
+Tie:      function level (cheap, hundreds per quick run):
+            pd_line      pandas.read_csv on one small text  vs  Lean `pdFrame` (the line-level atom the theorems rest on)
+            header_row   csv._header_row                    vs  Lean `headerRow`
+            block_kw     csv._read_csv with a spy reader    vs  Lean `firstKw/restKw/writeHeader` (text + keywords per block)
+            header_bytes csv.read_pandas (spy on text_blocks_to_pandas): header bytes, kwargs['header'], raise vs Lean
+            blocks       dd.read_csv on tiny files (several files, blocksizes of a few bytes, header/names/skiprows
+                         combinations): every partition's columns and rows vs Lean `readFiles`, all rows vs pandas
+            to_csv       to_csv(single_file / header_first_partition_only / header=False / name_function / index) bytes of
+                         every file vs Lean `writeFiles`, then read back with read_csv(blocksize) and pandas.read_csv
+          API level: read_csv(file, blocksize) == pandas.read_csv(file) on random frames (ints, floats+NaN, strings with
+            commas / quotes / unicode, dates, bools, `\\r\\n`, quoted line terminators), row counts per partition vs the
+            Lean block model; to_csv -> read_csv round trips over partitionings and options.
 """
 from __future__ import annotations
 
+import itertools
 import os
 import shutil
 import tempfile
@@ -21,24 +31,414 @@ from props import _dfpart_util as U
 PROP = "C47"
 READY = True
 DRIVER = "dm_dfpart"
-LEAN_MODULES = ["DaskModel.Props.C47"]
+LEAN_MODULES = ["DaskModel.Props.C47", "DaskModel.Props.C47Opts"]
 CASE_TIMEOUT_S = 90
-ASSUMPTIONS = ["pandas' CSV parser / formatter on one block is the oracle-checked atom (quoting rules, float text round trip)",
-               "no field contains the line terminator (the quoted-newline stream is checked on the real code only)"]
-LEVEL_TEXT = ("PARTIAL: CSV only. to_parquet / read_parquet cannot run here (pyarrow is absent, the import stub has no reader / "
-              "writer), so the parquet half of the statement is NOT decided by this check. For CSV: Lean 4 theorems over the "
-              "block model (read_bytes blocks from the C50 model with exact double offsets, header prepended to every "
-              "non-first block): the data rows seen by the per-block parsers, concatenated over the blocks, are the file's "
-              "lines after the header, for every blocksize and every non-empty file whose header line is newline-terminated "
-              "(csv_blocks_rows, fully proved on top of C50's lines_blocksize_independent_ieee; csv_whole_file for "
-              "blocksize=None). "
-              "VALIDATED on every run: read_csv == pandas.read_csv for blocksizes 1 byte .. whole file on random frames, "
-              "per-partition row counts == the Lean model, to_csv/read_csv round trips (partitionings, name_function, "
-              "single_file, index, header), multi-file globs, quoted fields containing the line terminator (known finding).")
-LEVEL_NOTE = ("Trusted: Lean kernel + standard axioms; pandas parser/formatter; fsspec local files; the TextBlocks model of "
-              "group bag (C50). Parquet half: not applicable in this sandbox (no pyarrow) - stated here and in LEVEL_TEXT.")
-TECHNIQUE = "Lean 4 proof over a line/block model + differential correspondence against pandas.read_csv and round trips"
+ASSUMPTIONS = [
+    "pandas' CSV parser on one text is the atom: its LINE-level behaviour (physical skiprows, blank lines are not rows, "
+    "which line names the columns, when it raises EmptyDataError / ParserError) is modelled as `pdFrame` and diffed "
+    "against pandas.read_csv on every run (section pd_line); field splitting, quoting, dtype inference and float text are "
+    "pandas' business",
+    "no field contains the line terminator (the quoted-newline stream is checked on the real code only: known finding)",
+    "rectangular files (every row has as many fields as the header); `comment=`, list `skiprows`, `skipfooter`, "
+    "`header='infer'` together with `names=` are not modelled",
+    "the theorems take the sample to be the whole first file (file shorter than `sample`, 256 kB by default); the sample "
+    "cut for `skiprows` with a small blocksize is modelled and diffed but has no theorem",
+]
+LEVEL_TEXT = (
+    "PARTIAL: CSV only. to_parquet / read_parquet cannot run here (pyarrow is absent), so the parquet half of the statement "
+    "is NOT decided by this check. CSV, proved in Lean 4 for ALL files, blocksizes and partitionings, at LINE level "
+    "(pandas' parser on one text is the modelled-and-diffed atom `pdFrame`): "
+    "(1) csv_blocks_rows (block model: header prepended to every block that does not start a file; rows over all blocks = "
+    "the file's lines after the header, exact IEEE block offsets from C50); "
+    "(2) read_file_frames / read_files_eq_pandas: for the keywords header (absent, 'infer', int, None) x names (given or "
+    "not) x skiprows, the per-block keyword rewrite of _read_csv (`write_header`, popped `skiprows` / `header`), the header "
+    "bytes read_pandas extracts (_header_row, proved to be pandas' header line: header_bytes_spec) and several files "
+    "(first block of EVERY file parsed with the user's keywords): the partitions' rows concatenate to pandas' rows file "
+    "after file and every partition has pandas' columns, under the explicit hypothesis FirstCovers (the first block of "
+    "each file contains the skipped rows and the header row; evaluated by the harness for every case); csv_opts_rows / "
+    "csv_names_any_file / csv_files_rows discharge it for header in {absent,'infer',0,None} x names for every blocksize; "
+    "names_keep_header_refuted and blank_header_bytes_refuted are the two defects the model exposes (a seeded keyword "
+    "rewrite; the blank first line, repaired in /repo e673923); "
+    "(3) to_csv: the per-partition header decision (single_file, header_first_partition_only, header=False) and "
+    "roundtrip_single_file / roundtrip_multi_file / roundtrip_no_header: reading the written file(s) block-wise returns "
+    "exactly the partitions' rows in order, empty partitions included. "
+    "VALIDATED on every run, not proved: pandas' line-level behaviour = pdFrame, every modelled function against the real "
+    "one on tiny files (blocksizes 1..N, several files), read_csv == pandas.read_csv on random typed frames, to_csv bytes "
+    "and round trips incl. name_function / index / dates; quoted fields containing the line terminator and a first block "
+    "that ends before the header row are known findings.")
+LEVEL_NOTE = ("Trusted: Lean kernel + standard axioms; pandas parser/formatter beyond the line level; fsspec local files; the "
+              "TextBlocks model of group bag (C50). Parquet half: not applicable in this sandbox (no pyarrow) - stated here "
+              "and in LEVEL_TEXT.")
+TECHNIQUE = ("Lean 4 proof over a line/block model of read_pandas/_read_csv/to_csv (induction over blocks and files, exact "
+             "IEEE offsets from C50) + function-level and API-level differential correspondence against pandas")
+TRUSTED = ["pandas.read_csv / DataFrame.to_csv below the line level (field splitting, quoting, dtypes)"]
 
+SIG_NL = "read_csv:line-terminator-inside-quoted-field:block-boundary-splits-the-field"
+SIG_FIRST = "read_csv:first-block-ends-before-the-header-row-or-the-skipped-rows:raises-or-keeps-skipped-rows"
+SIG_EMPTY = "read_csv:names=:empty-first-file:raises-where-pandas-returns-an-empty-frame"
+SAMPLE = 256000
+
+
+class _Tmp:
+    def __enter__(self):
+        self.d = tempfile.mkdtemp(prefix="c47_")
+        return self.d
+
+    def __exit__(self, *a):
+        shutil.rmtree(self.d, ignore_errors=True)
+
+
+# ---------------------------------------------------------------------------------------------------------------------
+# keyword encoding shared by the function-level sections: kw = [header, names, skiprows] with header in
+# "absent" | "infer" | "none" | int
+# ---------------------------------------------------------------------------------------------------------------------
+
+def _kw_lean(kw):
+    h = kw[0]
+    return [Sym(h) if isinstance(h, str) else h, bool(kw[1]), kw[2]]
+
+
+def _kw_py(kw, ncols):
+    out = {}
+    h = kw[0]
+    if h == "infer":
+        out["header"] = "infer"
+    elif h == "none":
+        out["header"] = None
+    elif h != "absent":
+        out["header"] = h
+    if kw[1]:
+        out["names"] = ["c%d" % i for i in range(ncols)]
+    if kw[2]:
+        out["skiprows"] = kw[2]
+    return out
+
+
+_STR = {"dtype": str, "keep_default_na": False, "na_filter": False}
+
+
+def _fields(line):
+    return line.rstrip(b"\r\n").decode("latin-1").split(",")
+
+
+def _ncols(text):
+    for ln in text.split(b"\n"):
+        if ln.strip(b" \t\r"):
+            return ln.count(b",") + 1
+    return 1
+
+
+def _cols_comparable(fields):
+    return all(f and f == f.strip() for f in fields) and len(set(fields)) == len(fields)
+
+
+def _lean_frame(fr):
+    """(cols|None, rows) of a Lean frame `(cols rows)`"""
+    cols = None if fr[0] is None else _fields(bytes(fr[0]))
+    return cols, [_fields(bytes(r)) for r in fr[1]]
+
+
+def _pd_frame(df, names_given):
+    cols = None if names_given or all(isinstance(c, int) for c in df.columns) else [str(c) for c in df.columns]
+    return cols, [[str(v) for v in row] for row in df.itertuples(index=False)]
+
+
+def case_pd_line(ctx, inp):
+    """pandas.read_csv on ONE text vs the Lean line-level model `pdFrame` (the atom of the C47Opts theorems)"""
+    import io
+
+    import pandas as pd
+    text = inp["text"].encode("latin-1")
+    kw = inp["kw"]
+    k = _ncols(text)
+    model = ctx.lean(Sym("pd-frame"), _kw_lean(kw), list(text))
+    try:
+        df = pd.read_csv(io.BytesIO(text), **_STR, **_kw_py(kw, k))
+        real = ["ok"]
+    except (pd.errors.EmptyDataError, pd.errors.ParserError) as e:
+        real = ["raised"]
+        ctx.branch("pd_line-raises-" + type(e).__name__)
+    ctx.eq("pandas raises / answers (line model)", model[0], real[0])
+    if model[0] == "ok" and real[0] == "ok":
+        mc, mr = _lean_frame(model[1])
+        pc, pr = _pd_frame(df, kw[1])
+        ctx.eq("pandas rows vs line model", mr, pr)
+        if mc is not None and _cols_comparable(mc):
+            ctx.eq("pandas columns vs line model", mc, pc)
+        elif mc is None:
+            ctx.eq("pandas columns: positional / names", None, pc)
+        ctx.branch("pd_line-h=%s-names=%s-skip=%s" % (kw[0] if isinstance(kw[0], str) else "int", bool(kw[1]), bool(kw[2])))
+        if b"\n\n" in text or text.startswith(b"\n") or b" \n" in text:
+            ctx.branch("pd_line-blank-lines")
+
+
+def case_header_row(ctx, inp):
+    """csv._header_row vs Lean `headerRow`"""
+    U.dd()
+    from dask.dataframe.io import csv as C
+    lines = [s.encode("latin-1") for s in inp["lines"]]
+    real = C._header_row(lines, inp["firstrow"], inp["header"], True)
+    model = ctx.lean(Sym("csv-header-row"), [list(x) for x in lines], inp["firstrow"], inp["header"])
+    ctx.eq("_header_row", model, real)
+    if real != inp["firstrow"] + inp["header"]:
+        ctx.branch("header_row-skips-blank")
+    elif real >= len(lines):
+        ctx.branch("header_row-beyond-the-sample")
+
+
+def case_block_kw(ctx, inp):
+    """_read_csv with a spy reader: the text and the keywords handed to pandas for one block vs Lean"""
+    import pandas as pd
+    U.dd()
+    from dask.dataframe.io import csv as C
+    kw = inp["kw"]
+    seen = {}
+
+    def spy(bio, **kwargs):
+        seen["text"] = bio.read()
+        seen["kw"] = kwargs
+        return pd.DataFrame({"a": []})
+    header_bytes = b"HDR\n"
+    block = b"1\n2\n"
+    kwargs = _kw_py(kw, 1)
+    # read_pandas makes `header` explicit before it calls text_blocks_to_pandas
+    kwargs["header"] = kwargs.get("header", "infer" if "names" not in kwargs else None)
+    if inp.get("skipfooter"):
+        kwargs["skipfooter"] = 1
+    C._read_csv(block, (None, inp["is_first"], inp["is_last"]), None, reader=spy, header=header_bytes, dtypes=None,
+                head=pd.DataFrame({"a": []}), colname=None, full_columns=["a"], enforce=False, kwargs=kwargs, blocksize=None)
+    model = ctx.lean(Sym("csv-block-kw"), _kw_lean(kw), bool(inp["is_first"]))
+    mkw, mwrite = model
+    got = seen["kw"]
+    rh = "absent" if "header" not in got else got["header"]
+    ctx.eq("keywords of the block: header", mkw[0], rh)
+    ctx.eq("keywords of the block: names kept", mkw[1], "names" in got)
+    ctx.eq("keywords of the block: skiprows", mkw[2], got.get("skiprows", 0))
+    ctx.eq("write_header", mwrite, seen["text"] == header_bytes + block)
+    if not mwrite and seen["text"] != block:
+        ctx.disagree("block text", list(block), list(seen["text"]))
+    if ("skipfooter" in got) != (bool(inp.get("skipfooter")) and inp["is_last"]):
+        ctx.fail("skipfooter must be kept for the last block of a file only", observed=[inp, sorted(got)])
+    ctx.branch("block_kw-%s-names=%s-first=%s" % (kw[0] if isinstance(kw[0], str) else "int", bool(kw[1]), inp["is_first"]))
+
+
+class _Captured(Exception):
+    pass
+
+
+def case_header_bytes(ctx, inp):
+    """read_pandas up to text_blocks_to_pandas: header bytes and kwargs['header'] vs Lean `headerBytes` / `effHeader`"""
+    import pandas as pd
+    U.dd()
+    from dask.dataframe.io import csv as C
+    text = inp["text"].encode("latin-1")
+    kw = inp["kw"]
+    cap = {}
+
+    def spy(reader, block_lists, header, head, kwargs, **rest):
+        cap["header"], cap["kwheader"] = header, kwargs.get("header", "absent")
+        raise _Captured
+    orig = C.text_blocks_to_pandas
+    with _Tmp() as d:
+        p = os.path.join(d, "f.csv")
+        with open(p, "wb") as f:
+            f.write(text)
+        C.text_blocks_to_pandas = spy
+        try:
+            C.read_pandas(pd.read_csv, p, blocksize=inp.get("bs"), **_STR, **_kw_py(kw, _ncols(text)))
+            real = ["no-call"]
+        except _Captured:
+            real = ["ok", list(cap["header"]), cap["kwheader"]]
+        except IndexError:
+            real = ["raised", "IndexError"]
+        except (pd.errors.EmptyDataError, pd.errors.ParserError):
+            real = ["raised", "head"]
+        except ValueError as e:
+            real = ["raised", "sample" if "Sample is not large enough" in str(e) else "ValueError:" + str(e)[:80]]
+        finally:
+            C.text_blocks_to_pandas = orig
+    # the model: sample, too-small check, header bytes, head
+    model = ctx.lean(Sym("csv-header-probe"), _kw_lean(kw), SAMPLE, list(text), Sym("none") if not inp.get("bs") else inp["bs"])
+    ctx.eq("read_pandas: header bytes / explicit header / raise", model, real)
+    ctx.branch("header_bytes-" + "-".join(str(x) for x in real[:1] + real[1:2] if not isinstance(x, list)))
+
+
+def _write_files(d, files):
+    paths = []
+    for i, t in enumerate(files):
+        p = os.path.join(d, "f%02d.csv" % i)
+        with open(p, "wb") as f:
+            f.write(t)
+        paths.append(p)
+    return paths
+
+
+def case_blocks(ctx, inp):
+    """dd.read_csv on tiny files: every partition (columns, rows) vs Lean `readFiles`; all rows vs pandas"""
+    import dask
+    import pandas as pd
+    dd = U.dd()
+    files = [t.encode("latin-1") for t in inp["files"]]
+    kw, bs = inp["kw"], inp.get("bs")
+    k = _ncols(files[0]) if files else 1
+    kwpy = _kw_py(kw, k)
+    lbs = Sym("none") if not bs else bs
+    model = ctx.lean(Sym("csv-read-files"), _kw_lean(kw), SAMPLE, [list(t) for t in files], lbs)
+    covered = all(ctx.lean(Sym("csv-file-ok"), _kw_lean(kw), list(t), lbs) is True for t in files)
+    with _Tmp() as d:
+        paths = _write_files(d, files)
+        try:
+            exp = [pd.read_csv(p, **_STR, **kwpy) for p in paths]
+            exp_rows = [r for df in exp for r in _pd_frame(df, kw[1])[1]]
+            exp_cols = _pd_frame(exp[0], kw[1])[0]
+            same_cols = all(_pd_frame(df, kw[1])[0] == exp_cols for df in exp)   # else the files do not form one frame
+            pandas_ok = True
+        except (pd.errors.EmptyDataError, pd.errors.ParserError):
+            pandas_ok = False
+        try:
+            with dask.config.set(scheduler="sync"):
+                r = dd.read_csv(paths, blocksize=bs, **_STR, **kwpy)
+                parts = U.partitions(r)
+            real = ["ok"]
+        except Exception as e:  # noqa: BLE001
+            real = ["raised", U.exc_name(e)]
+    ctx.eq("read_csv raises / answers (model of read_pandas + _read_csv)", model[0], real[0])
+    sig = None if covered else SIG_FIRST
+    if covered and kw[1] and files and not files[0]:
+        sig = SIG_EMPTY                       # nothing to read in the first file, names given: pandas returns an empty frame
+    if real[0] == "raised":
+        if pandas_ok:
+            # pandas reads the files, dask raises: allowed only for the documented sample error with skiprows
+            if "Sample is not large enough" in real[1] and kw[2]:
+                ctx.branch("blocks-documented-sample-error")
+            else:
+                ctx.fail("read_csv raised although pandas reads the file(s): " + real[1], sig=sig, observed=real[1])
+        else:
+            ctx.branch("blocks-both-raise")
+        return
+    got_frames = [_pd_frame(p, kw[1]) for p in parts]
+    if model[0] == "ok":
+        mf = [_lean_frame(f) for f in model[1]]
+        ctx.eq("rows of every partition (Lean readFiles vs read_csv)", [f[1] for f in mf], [f[1] for f in got_frames])
+        if all(c is None or _cols_comparable(c) for c, _ in mf):
+            ctx.eq("columns of every partition (Lean readFiles vs read_csv)", [f[0] for f in mf], [f[0] for f in got_frames])
+    if not pandas_ok:
+        ctx.fail("read_csv answers although pandas.read_csv raises on the file(s)", sig=sig, observed=[f[1] for f in got_frames])
+        return
+    got_rows = [r for _, rows in got_frames for r in rows]
+    if got_rows != exp_rows:
+        ctx.fail(f"read_csv(blocksize={bs}, {kwpy}) rows differ from pandas.read_csv", sig=sig,
+                 observed=got_rows[:12], expected=exp_rows[:12])
+    elif same_cols and any(c != exp_cols for c, _ in got_frames):
+        ctx.fail("a partition of read_csv has other columns than pandas.read_csv", sig=sig,
+                 observed=[c for c, _ in got_frames], expected=exp_cols)
+    elif not covered:
+        ctx.branch("blocks-first-block-short-but-right")
+    ctx.branch("blocks-h=%s-names=%s-skip=%s-files=%d-%s" % (kw[0] if isinstance(kw[0], str) else "int", bool(kw[1]), bool(kw[2]),
+                                                          min(len(files), 2), "whole" if not bs else "bs<=4" if bs <= 4 else "bs>4"))
+    if len(parts) > len(files):
+        ctx.branch("blocks-several-blocks-per-file")
+    if any(t.startswith(b"\n") or b"\n\n" in t for t in files):
+        ctx.branch("blocks-blank-lines")
+
+
+def _tiny_frame(inp):
+    import pandas as pd
+    n, k = inp["n"], inp["k"]
+    cols = {("c%d" % j if not inp.get("numeric_header") else str(j + 1)): [("r%d_%d" % (i, j)) for i in range(n)] for j in range(k)}
+    df = pd.DataFrame(cols)
+    if inp.get("index"):
+        df.index = pd.Index(["i%d" % i for i in range(n)], name="idx")
+    return df
+
+
+def case_to_csv(ctx, inp):
+    """to_csv options: the bytes of every written file vs Lean `writeFiles`, file names, and both read-back directions"""
+    import dask
+    import pandas as pd
+    dd = U.dd()
+    df = _tiny_frame(inp)
+    d0 = U.frame_from_cuts(df, inp["cuts"])
+    single, hfpo, header, index = bool(inp.get("single_file")), inp.get("hfpo"), inp.get("header", True), bool(inp.get("index"))
+    nf = inp.get("name_function")
+    kw = {"index": index}
+    if single:
+        kw["single_file"] = True
+    if not header:
+        kw["header"] = False
+    if hfpo is not None:
+        kw["header_first_partition_only"] = hfpo
+    names = None
+    if nf and not single:
+        names = {"pad": (lambda i: "p%03d" % i), "rev": (lambda i: "p%03d" % (500 - i)), "plain": (lambda i: "x%d" % i)}[nf]
+        kw["name_function"] = names
+    # the line-level view of the frame: header line and the data lines of every partition, as pandas writes them
+    parts_df = [df.iloc[a:b] for a, b in zip(inp["cuts"], inp["cuts"][1:])]
+    cols_line = df.iloc[:0].to_csv(index=index).encode()
+    part_lines = [[(ln + "\n").encode() for ln in p.to_csv(index=index, header=False).split("\n") if ln] for p in parts_df]
+    model = ctx.lean(Sym("csv-write"), [single, Sym("none") if hfpo is None else bool(hfpo), bool(header)], list(cols_line),
+                     [[list(r) for r in p] for p in part_lines])
+    with _Tmp() as d:
+        target = os.path.join(d, "out.csv") if single else os.path.join(d, "out-*.csv")
+        try:
+            with dask.config.set(scheduler="sync"):
+                files = d0.to_csv(target, **kw)
+            real = ["ok"]
+        except ValueError as e:
+            real = ["raised", U.exc_name(e)]
+        except Exception as e:  # noqa: BLE001
+            ctx.fail("to_csv raised: " + U.exc_name(e), observed=[U.exc_name(e), str(kw)])
+            return
+        ctx.eq("to_csv raises / writes (header_first_partition_only rule)", model[0], real[0])
+        if real[0] == "raised" or model[0] != "ok":
+            ctx.branch("to_csv-rejected-options")
+            return
+        contents = [list(open(f, "rb").read()) for f in files]
+        ctx.eq("bytes of every written file, in partition order (Lean writeFiles vs to_csv)", model[1], contents)
+        nparts = len(inp["cuts"]) - 1
+        if single:
+            ctx.eq("single_file: one file", 1, len(files))
+        else:
+            fn = names or (lambda i: str(i))
+            ctx.eq("file names: prefix + name_function(partition number), in partition order",
+                   ["out-%s.csv" % fn(i) for i in range(nparts)], [os.path.basename(f) for f in files])
+        # read back. header written in every file (or once in the single file): default read_csv; no header: names=
+        exp = df.reset_index() if index else df
+        exp_rows = [[str(v) for v in row] for row in exp.itertuples(index=False)]
+        every_file_has_header = header and (single or not hfpo)
+        if header and not every_file_has_header:
+            ctx.branch("to_csv-header-only-in-first-file")       # reading such files back needs per-file keywords: not a round trip
+            return
+        rkw = dict(_STR)
+        if not header:
+            rkw["names"] = list(exp.columns)
+            rkw["header"] = None
+        order = sorted(files)                                    # what a glob gives back
+        if nf == "rev" and not single:
+            ctx.branch("to_csv-name_function-not-order-preserving")
+            order = files                                         # documented: name_function must preserve the order
+        for bs in inp.get("blocksizes", [None]):
+            try:
+                with dask.config.set(scheduler="sync"):
+                    back = dd.read_csv(order, blocksize=bs, **rkw).compute()
+            except Exception as e:  # noqa: BLE001
+                ctx.fail(f"read_csv of the files written by to_csv raised (blocksize={bs}): " + U.exc_name(e), observed=U.exc_name(e))
+                return
+            got_rows = [[str(v) for v in row] for row in back.itertuples(index=False)]
+            if got_rows != exp_rows or [str(c) for c in back.columns] != [str(c) for c in exp.columns]:
+                ctx.fail(f"to_csv -> read_csv(blocksize={bs}) does not reproduce the frame", observed=got_rows[:10], expected=exp_rows[:10])
+        back_pd = pd.concat([pd.read_csv(f, **rkw) for f in order]) if order else exp.iloc[:0]
+        if [[str(v) for v in row] for row in back_pd.itertuples(index=False)] != exp_rows:
+            ctx.fail("to_csv -> pandas.read_csv does not reproduce the frame", observed=len(back_pd), expected=len(exp_rows))
+    ctx.branch("to_csv-" + ("single" if single else "multi") + ("" if header else "-noheader") + ("-index" if index else "")
+               + ("-namefn" if nf else "") + ("-empty-partition" if any(a == b for a, b in zip(inp["cuts"], inp["cuts"][1:])) else ""))
+    if any(a == b for a, b in zip(inp["cuts"][:2], inp["cuts"][1:2])):
+        ctx.branch("to_csv-first-partition-empty")
+
+
+# ---------------------------------------------------------------------------------------------------------------------
+# API level on random typed frames (as before)
+# ---------------------------------------------------------------------------------------------------------------------
 
 def _mkframe(inp):
     import numpy as np
@@ -76,15 +476,6 @@ def _same(got, exp):
     return U.same_pandas(got.reset_index(drop=True), exp.reset_index(drop=True), sort=False, names=False)
 
 
-class _Tmp:
-    def __enter__(self):
-        self.d = tempfile.mkdtemp(prefix="c47_")
-        return self.d
-
-    def __exit__(self, *a):
-        shutil.rmtree(self.d, ignore_errors=True)
-
-
 def case_read_csv(ctx, inp):
     """read_csv(file, blocksize) vs pandas.read_csv(file), and the partition structure vs the Lean model"""
     import dask
@@ -119,12 +510,12 @@ def case_read_csv(ctx, inp):
                 parts = U.partitions(r)
                 got = pd.concat(parts) if parts else exp.iloc[:0]
         except Exception as e:  # noqa: BLE001
-            sig = "read_csv:line-terminator-inside-quoted-field:block-boundary-splits-the-field" if has_nl and bs else None
+            sig = SIG_NL if has_nl and bs else None
             ctx.fail("read_csv raised: " + U.exc_name(e), sig=sig, observed=[U.exc_name(e), bs])
             return
     why = _same(got, exp)
     if why:
-        sig = "read_csv:line-terminator-inside-quoted-field:block-boundary-splits-the-field" if has_nl and bs else None
+        sig = SIG_NL if has_nl and bs else None
         ctx.fail(f"read_csv(blocksize={bs}) differs from pandas.read_csv: {why}", sig=sig,
                  observed=got.head(12).to_dict("list"), expected=exp.head(12).to_dict("list"))
     ctx.branch("read_csv-" + ("whole" if not bs else "bs<=8" if bs <= 8 else "bs<=64" if bs <= 64 else "bs>64")
@@ -176,7 +567,7 @@ def case_roundtrip(ctx, inp):
                     exp_files = len(inp["cuts"]) - 1
                 got = back.compute()
         except Exception as e:  # noqa: BLE001
-            ctx.fail("to_csv/read_csv raised: " + U.exc_name(e), observed=[U.exc_name(e), kw])
+            ctx.fail("to_csv/read_csv raised: " + U.exc_name(e), observed=[U.exc_name(e), str(kw)])
             return
         if len(files) != exp_files:
             ctx.fail("to_csv wrote an unexpected number of files", observed=len(files), expected=exp_files)
@@ -195,7 +586,147 @@ def case_roundtrip(ctx, inp):
                + ("-empty-partition" if any(a == b for a, b in zip(inp["cuts"], inp["cuts"][1:])) else ""))
 
 
-CASES = {"read_csv": case_read_csv, "roundtrip": case_roundtrip}
+CASES = {"pd_line": case_pd_line, "header_row": case_header_row, "block_kw": case_block_kw, "header_bytes": case_header_bytes,
+         "blocks": case_blocks, "to_csv": case_to_csv, "read_csv": case_read_csv, "roundtrip": case_roundtrip}
+
+
+# ---------------------------------------------------------------------------------------------------------------------
+# generators
+# ---------------------------------------------------------------------------------------------------------------------
+
+_HDRS = ["absent", "infer", 0, "none", 1, 2]
+
+
+def _rand_kw(rng, matrix_only=False):
+    h = rng.choice(["absent", "absent", "infer", 0, 0, "none", "none"] + ([] if matrix_only else [1, 1, 2]))
+    names = rng.random() < 0.45
+    if h == "infer" and names:
+        h = "absent"                       # header='infer' together with names= is not modelled
+    skip = 0 if matrix_only or rng.random() < 0.7 else rng.randint(1, 3)
+    return [h, names, skip]
+
+
+_FIELD = ["a", "b", "c1", "7", "10", "x y", "q", "zz", "", "0"]
+
+
+def _rand_text(rng, maxrows=6, blanks=True):
+    """a rectangular CSV text: k fields per line, distinct non-empty header fields, optional blank lines / missing final
+    terminator / \\r\\n; the header text may be a prefix of a data row"""
+    k = rng.randint(1, 3)
+    hdr = rng.sample(["a", "b", "c1", "q", "zz", "1", "7", "10"], k)
+    n = rng.randint(0, maxrows)
+    lines = [",".join(hdr)]
+    for _ in range(n):
+        row = [rng.choice(_FIELD) for _ in range(k)]
+        if k == 1 and row[0] in ("", ):
+            row[0] = "e"
+        if rng.random() < 0.15:
+            row = list(hdr)                # a data row equal to the header
+        lines.append(",".join(row))
+    if blanks:
+        for _ in range(rng.choice([0, 0, 0, 1, 2])):
+            lines.insert(rng.randint(0, len(lines)), rng.choice(["", "", " ", "\t"]))
+    nl = "\r\n" if rng.random() < 0.1 else "\n"
+    text = nl.join(lines) + (nl if rng.random() < 0.85 else "")
+    if rng.random() < 0.03:
+        text = ""
+    return text
+
+
+def _all_texts(alphabet, maxlen):
+    for n in range(maxlen + 1):
+        for t in itertools.product(alphabet, repeat=n):
+            yield "".join(t)
+
+
+def _rectangular(text):
+    ls = [ln for ln in text.split("\n") if ln.strip(" \t\r")]
+    return len({ln.count(",") for ln in ls}) <= 1
+
+
+def _gen_pd_line(ctx):
+    rng = ctx.rng
+    for _ in range(ctx.n(260, 2600)):
+        yield "pd_line", {"text": _rand_text(rng), "kw": _rand_kw(rng)}
+    if ctx.thorough():
+        # exhaustive: every rectangular text of <= 6 bytes over {h, 1, ',', '\n'} x the keyword combinations
+        for t in _all_texts("h1,\n", 6):
+            if _rectangular(t):
+                for kw in (["absent", False, 0], [0, True, 0], ["none", False, 0], ["absent", True, 0], [1, False, 0], ["absent", False, 1]):
+                    yield "pd_line", {"text": t, "kw": kw}
+
+
+def _gen_header_row(ctx):
+    rng = ctx.rng
+    for _ in range(ctx.n(120, 1200)):
+        n = rng.randint(0, 7)
+        lines = [rng.choice(["", "", " ", "\t", "\r", "a", "1,2", "x"]) for _ in range(n)]
+        yield "header_row", {"lines": lines, "firstrow": rng.randint(0, 3), "header": rng.randint(0, 3)}
+    if ctx.thorough():
+        for n in range(0, 6):
+            for pat in itertools.product(["", "a"], repeat=n):
+                for fr in range(0, 3):
+                    for h in range(0, 3):
+                        yield "header_row", {"lines": list(pat), "firstrow": fr, "header": h}
+
+
+def _gen_block_kw(ctx):
+    for h in _HDRS:
+        for names in (False, True):
+            if h == "infer" and names:
+                continue
+            for skip in (0, 2):
+                for first in (True, False):
+                    for last in (True, False):
+                        yield "block_kw", {"kw": [h, names, skip], "is_first": first, "is_last": last, "skipfooter": last != first}
+
+
+def _gen_header_bytes(ctx):
+    rng = ctx.rng
+    for _ in range(ctx.n(120, 1200)):
+        yield "header_bytes", {"text": _rand_text(rng, maxrows=4), "kw": _rand_kw(rng), "bs": rng.choice([None, None, 1, 3, 6, 50])}
+
+
+def _gen_blocks(ctx):
+    rng = ctx.rng
+    # the combinations the theorems name, several blocks AND several files, blocksizes of a few bytes
+    fixed = ["a,b\n1,2\n3,4\n5,6\n", "a,b\n7,8\n\n9,10\n"]
+    for kw in (["absent", False, 0], [0, False, 0], ["none", False, 0], ["absent", True, 0], [0, True, 0], ["none", True, 0]):
+        for bs in (None, 1, 3, 5, 9):
+            yield "blocks", {"files": fixed, "kw": kw, "bs": bs}
+    yield "blocks", {"files": ["\na\n1\n2\n3\n"], "kw": ["absent", False, 0], "bs": 4}      # blank first line (fixed e673923)
+    yield "blocks", {"files": ["123\n4\n"], "kw": ["none", False, 0], "bs": 1}             # rowless block, header=None (fixed af2d511)
+    for _ in range(ctx.n(330, 3300)):
+        nf = rng.choice([1, 1, 2, 3])
+        first = _rand_text(rng, maxrows=5, blanks=rng.random() < 0.5)
+        files = [first]
+        hdr_line = next((ln for ln in first.split("\n") if ln.strip(" \t\r")), "a")
+        k = hdr_line.count(",") + 1
+        for _ in range(nf - 1):
+            rows = [",".join(rng.choice(_FIELD[:8]) for _ in range(k)) for _ in range(rng.randint(0, 4))]
+            files.append("\n".join([hdr_line.rstrip("\r")] + rows) + "\n")
+        kw = _rand_kw(rng, matrix_only=rng.random() < 0.6)
+        yield "blocks", {"files": files, "kw": kw, "bs": rng.choice([None, 1, 2, 3, 4, 5, 7, 10, 16, 40])}
+    if ctx.thorough():
+        # exhaustive small space: every rectangular file of <= 6 bytes over {h, 1, ',', '\n'} x every blocksize x 4 keyword sets
+        for t in _all_texts("h1,\n", 6):
+            if t and _rectangular(t):
+                for bs in range(1, len(t) + 1):
+                    for kw in (["absent", False, 0], [0, True, 0], ["none", False, 0], ["absent", True, 0]):
+                        yield "blocks", {"files": [t], "kw": kw, "bs": bs}
+
+
+def _gen_to_csv(ctx):
+    rng = ctx.rng
+    for _ in range(ctx.n(60, 600)):
+        n = rng.randint(0, 7)
+        single = rng.random() < 0.4
+        yield "to_csv", {"n": n, "k": rng.randint(1, 3), "cuts": U.rand_cuts(rng, n, maxparts=rng.choice([1, 2, 4]), p_empty=0.5),
+                         "single_file": single, "hfpo": rng.choice([None, None, None, True, False]),
+                         "header": rng.random() < 0.8, "index": rng.random() < 0.3,
+                         "name_function": None if single else rng.choice([None, "pad", "pad", "plain", "rev"]),
+                         "numeric_header": rng.random() < 0.3,
+                         "blocksizes": [None, rng.choice([1, 2, 3, 5, 8, 13, 30])]}
 
 
 def _rand_cols(rng, nl=False):
@@ -210,24 +741,45 @@ def _rand_cols(rng, nl=False):
     return cols
 
 
-def generate(ctx):
+def _gen_api(ctx):
     rng = ctx.rng
     # the header-prefix witness and a tiny-blocksize sweep on a fixed file
     for bs in [None, 1, 2, 3, 4, 5, 6, 8, 11, 16, 33]:
         yield "read_csv", {"n": 6, "cols": [["1", "int", 3]], "blocksize": bs}
-    for _ in range(ctx.n(220, 2200)):
+    for _ in range(ctx.n(40, 1400)):
         n = rng.randint(0, 25)
         yield "read_csv", {"n": n, "cols": _rand_cols(rng), "blocksize": rng.choice([None, 1, 2, 3, 5, 7, 9, 16, 31, 64, 200, 1000]),
                            "lt": rng.choice(["\n", "\n", "\n", "\r\n"])}
-    for _ in range(ctx.n(50, 500)):
+    for _ in range(ctx.n(12, 400)):
         n = rng.randint(1, 20)
         yield "read_csv", {"n": n, "cols": _rand_cols(rng), "blocksize": rng.choice([None, 3, 7, 16, 40, 200]), "names": True}
-    for _ in range(ctx.n(40, 400)):
+    for _ in range(ctx.n(10, 300)):
         n = rng.randint(1, 12)
         yield "read_csv", {"n": n, "cols": _rand_cols(rng, nl=True), "blocksize": rng.choice([None, 4, 9, 17, 40, 10000])}
-    for _ in range(ctx.n(90, 900)):
+    for _ in range(ctx.n(25, 700)):
         n = rng.randint(0, 20)
         yield "roundtrip", {"n": n, "cols": _rand_cols(rng), "cuts": U.rand_cuts(rng, n, maxparts=rng.choice([1, 3, 5])),
                             "single_file": rng.random() < 0.35, "index": rng.random() < 0.4,
                             "name_function": rng.choice([None, None, "rev", "x"]),
                             "blocksize": rng.choice([None, None, 8, 50])}
+
+
+def _interleave(streams):
+    """round-robin over the generator streams, so that a deadline cuts all of them proportionally"""
+    its = [iter(s) for s in streams]
+    while its:
+        nxt = []
+        for it in its:
+            try:
+                yield next(it)
+                nxt.append(it)
+            except StopIteration:
+                pass
+        its = nxt
+
+
+def generate(ctx):
+    yield from _gen_block_kw(ctx)           # exhaustive, ~0.3 ms each
+    # each stream draws from ctx.rng lazily; the interleaving order is deterministic for a seed
+    yield from _interleave([_gen_pd_line(ctx), _gen_blocks(ctx), _gen_header_row(ctx), _gen_header_bytes(ctx),
+                            _gen_to_csv(ctx), _gen_api(ctx)])
